@@ -320,6 +320,82 @@ for rot in range(10):
             fail({'kexinit fields': l}, repr(got), repr(want))
         if k2.payload != p:
             fail({'kexinit re-encode': l}, k2.payload.hex(), p.hex())
+# --- name-lists with empty names (legal on the wire: consecutive commas), single empty name, long lists: encode/decode are inverse
+for l in (['a', '', 'b'], ['', ''], [''], ['', 'a'], ['a', ''], ['x'] * 50, ['a,b'.replace(',', '-'), 'c']):
+    cases += 1
+    w = WriteBuf(); w.write_list(l); p = w.write_flush()
+    if p != len(','.join(l).encode()).to_bytes(4, 'big') + ','.join(l).encode():
+        fail({'write_list': l}, p.hex(), 'uint32 length + names joined by commas')
+    r = ReadBuf(p).read_list()
+    if r != l:
+        fail({'name-list round trip': l}, r, l)
+    w = WriteBuf(); w.write_list(ReadBuf(p).read_list()); p2 = w.write_flush()
+    if p2 != p:
+        fail({'name-list re-encode': l}, p2.hex(), p.hex())
+# --- packets through the real socket classes over a loopback byte pipe: what send_packet emits, read_packet returns, however the bytes are segmented
+import struct as _st
+from ssh_audit.ssh_socket import SSH_Socket
+from ssh_audit.ssh1 import SSH1
+class Pipe:
+    def __init__(self, seg):
+        self.buf, self.seg = b'', seg
+    def send(self, data):
+        self.buf += bytes(data); return len(data)
+    sendall = send
+    def recv(self, n, flags=0):
+        k = min(n, self.seg, len(self.buf))
+        out, self.buf = self.buf[:k], self.buf[k:]
+        return out
+    def settimeout(self, t): pass
+    def close(self): pass
+def rfc_decode(stream):
+    # independent RFC 4253 section 6 reader
+    plen, pad = _st.unpack('>IB', stream[:5])
+    assert (4 + plen) % 8 == 0 and 4 <= pad <= 255 and plen >= pad + 1, (plen, pad)
+    return stream[5:4 + plen - pad], stream[4 + plen:]
+for seg in (1 << 20, 1, 7, 512, 2048, 4095):
+    for sizes in ([1], [5, 13], [100, 4095, 4096, 1], [8191, 3], [20000], [2, 2, 2, 2]):
+        cases += 1
+        s_ = SSH_Socket(OutputBuffer(), 'localhost', 22)
+        pipe = Pipe(seg)
+        s_._SSH_Socket__sock = pipe
+        payloads = [bytes([30 + (i % 5)]) + bytes((j * 7 + i) % 256 for j in range(n - 1)) for i, n in enumerate(sizes)]
+        for pl in payloads:
+            s_.write(pl); s_.send_packet()
+        rest = pipe.buf
+        for pl in payloads:
+            got, rest = rfc_decode(rest)
+            if got != pl:
+                fail({'send_packet framing': len(pl)}, got[:16].hex(), pl[:16].hex())
+        for pl in payloads:
+            t, body = s_.read_packet(2)
+            if (t, body) != (pl[0], pl[1:]):
+                fail({'send_packet -> read_packet': {'payload bytes': len(pl), 'segment size': seg, 'sizes': sizes}}, {'type': t, 'bytes': len(body)}, {'type': pl[0], 'bytes': len(pl) - 1})
+                break
+# --- SSH-1 packets with non-zero padding: the CRC-32 covers padding and payload
+import binascii
+def ssh1_crc(data):
+    # SSH-1 CRC-32: the IEEE polynomial with zero initial value and no final inversion
+    return binascii.crc32(data, 0xffffffff) ^ 0xffffffff
+for n, padbyte in ((9, 0x00), (9, 0x55), (15, 0xff), (40, 0xa7), (5, 0x01)):
+    for good in (True, False):
+        cases += 1
+        payload = bytes([2]) + bytes((i * 11 + 3) % 256 for i in range(n - 1))
+        padding = bytes([padbyte]) * (8 - (len(payload) + 4) % 8)
+        crc = ssh1_crc(padding + payload) if good else ssh1_crc(payload) ^ (0 if padbyte else 1)
+        raw = _st.pack('>I', len(payload) + 4) + padding + payload + _st.pack('>I', crc)
+        s_ = SSH_Socket(OutputBuffer(), 'localhost', 22)
+        s_._SSH_Socket__sock = Pipe(1 << 20); s_._SSH_Socket__sock.buf = raw
+        try:
+            t, body = s_.read_packet(1)
+            outcome = (t, body)
+        except SystemExit as e:
+            outcome = 'rejected'
+        want = (2, payload[1:]) if good else 'rejected'
+        if outcome != want and not (not good and padbyte == 0 and ssh1_crc(payload) == ssh1_crc(padding + payload)):
+            fail({'ssh1 packet': {'payload bytes': n, 'padding byte': padbyte, 'crc over padding+payload': good}}, repr(outcome)[:60], repr(want)[:60])
+if SSH1.crc32(b'\x55\x55\x02abc') != ssh1_crc(b'\x55\x55\x02abc'):
+    fail({'ssh1 crc': 'reference'}, SSH1.crc32(b'\x55\x55\x02abc'), ssh1_crc(b'\x55\x55\x02abc'))
 # --- SSH-1 public key message
 for skey, hkey, flags, cm, am in (((768, 0x10001, 0xc0ffee), (1024, 0x23, 0xdeadbeef1234567), 2, 0x48, 0x2c), ((1, 1, 1), (2, 3, 2 ** 600 + 1), 0, 0, 0), ((0xffffffff, 0, 0), (7, 2 ** 64, 2 ** 65 - 1), 0xffffffff, 0xffffffff, 0xffffffff)):
     cases += 1
